@@ -17,7 +17,7 @@ def run(chk, args):
               allow_reset=True, tight=False, edges=False, invariants=["Interchangeable"])
     if not q:
         mc_bounds(chk, "SA4", N=4, cls="SA", sing="zero", slacks="0to1", computers={"sa", "sac"}, reps={0}, maxchg=1,
-                  allow_reset=False, tight=False, edges=False, invariants=["Interchangeable"], timeout=3000)
+                  allow_reset=False, tight=False, edges=False, invariants=["Interchangeable"], timeout=5400)
     chk.model_check("MC_Cache", "MC_Cache.cfg")
     validate_bounds_traces(chk, [
         {"family": "cached", "ns": "2,3,4,5,6" if q else "2,3,4,5,6,7,8", "count": 20 if q else 80, "length": 12 if q else 16, "interleave": 1},
